@@ -344,3 +344,22 @@ Proof.
   split; [reflexivity|].
   vm_compute. repeat split. discriminate.
 Qed.
+
+(* Under rust_decimal rounding the additivity of the aggregate is NOT a theorem:
+   with own totals of 28 digits the aggregate of three securities differs (in
+   the last digit) from the sum of the aggregate of the first and the aggregate
+   of the other two.  No input a user could have; the statement above is
+   therefore for exact arithmetic, and what holds for rust_decimal rounding is
+   C08_aggregate_ignores_failed. *)
+Theorem C08_aggregate_additive_dec_refuted :
+  exists la lb gi ga gb,
+    aggregate Arith.dec gains0 (la ++ lb) = Ok gi /\ aggregate Arith.dec gains0 la = Ok ga /\
+    aggregate Arith.dec gains0 lb = Ok gb /\
+    g_total gi <> (g_total ga + g_total gb)%Qc /\ a_add Arith.dec (g_total ga) (g_total gb) <> Ok (g_total gi).
+Proof. exact C08Agg.aggregate_additive_dec_refuted. Qed.
+Check C08_aggregate_additive_dec_refuted :
+  exists la lb gi ga gb,
+    aggregate Arith.dec gains0 (la ++ lb) = Ok gi /\ aggregate Arith.dec gains0 la = Ok ga /\
+    aggregate Arith.dec gains0 lb = Ok gb /\
+    g_total gi <> (g_total ga + g_total gb)%Qc /\ a_add Arith.dec (g_total ga) (g_total gb) <> Ok (g_total gi).
+Print Assumptions C08_aggregate_additive_dec_refuted.
